@@ -1,6 +1,7 @@
 import S2T.Lemmas.Archive
 import S2T.Gen.Router
 import S2T.Gen.Archive
+import S2T.Props.C09_Src
 /-!
 # C09 — Archive processing is confined: no host file is read or written
 
